@@ -60,7 +60,7 @@ def run_plugin(reqfile, seed, cwd, retry_cfg):
     return data, ""
 
 
-def compare(tie, seeds):
+def compare(tie, seeds, selective=False, siblings=False):
     from google.protobuf.compiler import plugin_pb2
     import json
     d = tempfile.mkdtemp(prefix="c10_")
@@ -73,7 +73,9 @@ def compare(tie, seeds):
         req.parameter += f",retry-config={cfg}"
         # a service yaml with mixin APIs and several http rules per mixin service
         ycfg = os.path.join(d, "service.yaml")
-        json.dump({"type": "google.api.Service", "config_version": 3, "name": "lab.example.com",
+        publishing = {"publishing": {"library_settings": [{"version": "acme.lab.v1", "python_settings": {"common": {"selective_gapic_generation": {
+            "methods": ["acme.lab.v1.Lab.GetLab", "acme.lab.v1.Lab.LocateLab", "acme.lab.v1.Zoo.ListZoo"]}}}}]}} if selective else {}
+        json.dump({**publishing, "type": "google.api.Service", "config_version": 3, "name": "lab.example.com",
                    "apis": [{"name": "google.cloud.location.Locations"}, {"name": "google.longrunning.Operations"}, {"name": "google.iam.v1.IAMPolicy"}],
                    "http": {"rules": [{"selector": "google.cloud.location.Locations.ListLocations", "get": "/v1/{name=projects/*}/locations"},
                                       {"selector": "google.cloud.location.Locations.GetLocation", "get": "/v1/{name=projects/*/locations/*}"},
@@ -86,6 +88,22 @@ def compare(tie, seeds):
                                       {"selector": "google.iam.v1.IAMPolicy.TestIamPermissions", "post": "/v1/{resource=shelves/*}:testIamPermissions", "body": "*"}]}},
                   open(ycfg, "w"))
         req.parameter += f",service-yaml={ycfg}"
+        if siblings:
+            # every target file in a sibling sub-package of equal name length, none in their common parent: the entry point has to pick the package
+            del req.file_to_generate[:]
+            keep = [f for f in req.proto_file if not f.name.startswith("acme/lab/v1/")]
+            del req.proto_file[:]
+            req.proto_file.extend(keep)
+            from vf import genlab as G
+            for sub in ("admin", "store"):
+                sf = G.new_file(f"acme/lab/v1/{sub}/{sub}.proto", f"acme.lab.v1.{sub}")
+                G.add_message(sf, "Req", [G.F("name", 1, G.T.TYPE_STRING)])
+                G.add_message(sf, "Resp", [G.F("x", 1, G.T.TYPE_STRING)])
+                sv = G.add_service(sf, sub.capitalize() + "Service")
+                G.add_method(sv, "Get", f".acme.lab.v1.{sub}.Req", f".acme.lab.v1.{sub}.Resp", http=("get", "/v1/{name=%s/*}" % sub))
+                req.proto_file.append(sf)
+                req.file_to_generate.append(sf.name)
+            req.parameter = "transport=grpc+rest,autogen-snippets=false"
         reqfile = os.path.join(d, "req.bin")
         open(reqfile, "wb").write(req.SerializeToString())
         outs = {}
@@ -120,4 +138,6 @@ def scenarios():
     failures = [dict(f, api="resources without equal short names") for f in compare(False, seeds)]
     tie = compare(True, seeds)
     failures += [dict(f, api="resources whose short type names tie under the template's sort key (a.example.com/Thing vs b.example.com/Thing; IPRange vs IpRange under jinja's case-insensitive sort)", known="resource-type-tie") for f in tie]
-    return {"cases": 2 * len(seeds), "failures": failures}
+    failures += [dict(f, api="selective generation (three listed methods, pruning mode)") for f in compare(False, seeds, selective=True)]
+    failures += [dict(f, api="target files only in two sibling sub-packages of equal length") for f in compare(False, seeds, siblings=True)]
+    return {"cases": 4 * len(seeds), "failures": failures}
